@@ -91,6 +91,16 @@ def check(case, ctx):
     out = call(lambda: _reused["w"].magnetic_field(lat, lon, h, date=d_arg))
     if ctx.returned(out, route="magnetic_field/reused-object"):
         judge("magnetic_field/reused-object", _reused["w"])
+        # a vertical profile: the same latitude and longitude again with other heights, then the very same query repeated
+        for k, h2 in enumerate((h + 25.0, max(h - 1.0, -1.0), h)):
+            o3 = call(lambda: _reused["w"].magnetic_field(lat, lon, h2, date=d_arg))
+            if ctx.returned(o3, clause="no-exception[same place, another height]", route="magnetic_field/reused-object"):
+                w = _reused["w"]
+                got3 = np.array([w.X, w.Y, w.Z], dtype=float)
+                ref3, _ = refwmm.field(lat, lon, h2, date, cof_root())
+                tol3 = TOL_NT if (abs(lat) <= 89.0 or abs(lat) == 90.0) else TOL_NEAR_POLE
+                ctx.le("same latitude / longitude, another height on a reused object: X, Y, Z are those of the new height (nT)", float(np.abs(got3 - ref3).max()), tol3,
+                       {"lat": lat, "lon": lon, "h_km": h2, "previous_h_km": h, "got": got3, "ref": ref3}, route="magnetic_field/reused-object")
         # follow-up queries with date=None (keeps the date of the previous query; an omitted date would mean today): the values must be
         # those of that date at the new place, however many such queries follow each other
         for k in (1, 2, 3):
